@@ -72,6 +72,17 @@ def run(tier, seed, replay=None):
                 + G_ + 'table(feature) f1 { id = 100; name.1033 = string(STAMP); settings { on { value = 1; name.1033 = string(DSTAMP); } '
                 'off { value = 0; name.1033 = string(FSTAMP); } } default = off; } endtable;\ntable(sub) cA > cB; endtable;\n'))
     bfont = _ttf.simple_font(40, post_names=[".notdef"] + ["g%d" % i for i in range(1, 40)])[0]
+    # renaming the font family (4th argument) of a font that is not "Regular" and has preferred-family / preferred-subfamily /
+    # compatible-full records (ids 16-18): the name table is rebuilt with strings of other lengths
+    for k, (sub, extra) in enumerate([("Bold Oblique", {16: "Verif", 17: "Bold Oblique", 18: "Verif Bold Oblique"}),
+                                      ("Italic", {16: "Verif"}), ("Regular", {16: "Verif", 17: "Regular"})]):
+        r = random.Random(rng.getrandbits(64))
+        pr = gen.gen_feature_program(r)
+        nm_extra = dict(extra)
+        nm_extra.update({2: sub, 4: "Verif " + sub, 6: "Verif-" + sub.replace(" ", "")})
+        pr.font = _ttf.simple_font(pr.nglyphs, names=_ttf.default_names("Verif", extra=nm_extra))[0]
+        pr.rename = "Renamed Family %d" % k
+        progs.append(("rename%d" % k, pr, None))
     for nm, text in bad:
         pr = gen.Prog()
         pr.nglyphs = 40
@@ -108,10 +119,11 @@ def run(tier, seed, replay=None):
             if env_extra:
                 env.update(env_extra)
             o, e = out % tag, err % tag
-            cmd = list(prefix) + [build["grcompiler"], "-q", "-e", e] + opts + [gdl, font, o]
+            cmd = list(prefix) + [build["grcompiler"], "-q", "-e", e] + opts + [gdl, font, o] + ([prog.rename] if prog is not None and getattr(prog, "rename", None) else [])
             return subprocess.Popen(cmd, cwd=cwd, env=env, stdout=subprocess.DEVNULL, stderr=subprocess.DEVNULL), o, e
         runs = [("base", d, None, ()), ("rep1", d, None, ()), ("rep2", d, None, ()),
                 ("perturb", d, {"MALLOC_PERTURB_": "165", "MALLOC_ARENA_MAX": "1"}, ()),
+                ("perturb1", d, {"MALLOC_PERTURB_": "1"}, ()), ("notcache", d, {"GLIBC_TUNABLES": "glibc.malloc.tcache_count=0"}, ()),
                 # every allocation through mmap: objects come at descending addresses, which reverses the iteration order
                 # of every container keyed by object address
                 ("mmap", d, {"MALLOC_MMAP_THRESHOLD_": "0"}, ()),
